@@ -611,9 +611,24 @@ def origins(prog, f, local, scope=None, call_filter=None, max_frames=6, _seen=No
                 if f.is_closure():
                     # upvars: closure creation operands (param 1 is the closure env)
                     if l == 1:
+                        # which captured variables (env fields `.N`) feed the dependent locals?
+                        used = set()
+                        whole = False
+                        for dl in dep:
+                            for bb0, kind0, x0 in f.defs().get(dl, []):
+                                pls = [o["p"] for o in x0.get("o", []) if "p" in o] if kind0 == "stmt" else [a["p"] for a in x0.args if "p" in a]
+                                for pl in pls:
+                                    if pl[0] == 1:
+                                        idx = [e for e in pl[1:] if isinstance(e, str) and e.startswith(".") and e[1:].isdigit()]
+                                        if idx:
+                                            used.add(int(idx[0][1:]))
+                                        else:
+                                            whole = True
                         for bb, s in cf.stmts():
                             if s.get("k") == "closure" and s.get("closure") == f.path:
-                                for o in s.get("o", []):
+                                for oi, o in enumerate(s.get("o", [])):
+                                    if used and not whole and oi not in used:
+                                        continue
                                     if "p" in o:
                                         origins(prog, cf, o["p"][0], scope, call_filter, max_frames - 1, seen, out)
                                     elif "c" in o:
